@@ -359,6 +359,16 @@ def _eps(dtype):
     return 2.3e-16 if dtype == torch.float64 else 1.2e-7
 
 
+def _teq(a, b):
+    """Bitwise-equal values, NaN counting as equal to NaN (parameters left behind by an overflowing trial)."""
+    if a.shape != b.shape:
+        return False
+    a, b = a.detach(), b.detach()
+    a = a.tensor() if hasattr(a, "ltype") else a
+    b = b.tensor() if hasattr(b, "ltype") else b
+    return bool(((a == b) | (torch.isnan(a) & torch.isnan(b))).all())
+
+
 # ---------------------------------------------------------------------------------------------
 
 def execute(plan, prop, out, tr):
@@ -678,7 +688,7 @@ def execute(plan, prop, out, tr):
                 else:
                     # the call ended with this trial kept
                     for a_, b_ in zip(p_e, tk["trial"]):
-                        if not torch.equal(a_, b_):
+                        if not _teq(a_, b_):
                             raise Violation("C08.kept", "call %d: parameters after the call differ from the last "
                                             "trial's parameters although no rejection followed" % ci, ci, "kept")
                     if (L_k == math.inf) != (ret_f == math.inf) or (L_k != math.inf and abs(ret_f - L_k) > tight * (1 + abs(L_k))):
@@ -693,7 +703,7 @@ def execute(plan, prop, out, tr):
             if ended_by_raise:
                 k = n_solves - 1
                 for a_, b_ in zip(p_e, srec[k]["snap"]):
-                    if not torch.equal(a_, b_):
+                    if not _teq(a_, b_):
                         raise Violation("C08.solver-raise", "call %d: solver raised at trial %d but the parameters after "
                                         "the call are not those before that trial" % (ci, k), ci, "raise:params")
                 if not (abs(ret_f - L_s) <= tight * scaleL):
@@ -1056,6 +1066,8 @@ def _check_update(kinds, before, after, D, cols, ci, k):
     Dv = D.detach().double().numpy().reshape(-1)
     if not np.isfinite(Dv).all() or np.abs(Dv).max() > 1e3:
         return          # a non-finite / astronomically large step (solver garbage on an indefinite A): no verdict
+    if not all(bool(torch.isfinite(t_.detach()).all()) for t_ in list(before) + list(after)):
+        return          # parameters already at inf / NaN (left behind by an overflowing trial): no verdict
     if Dv.shape[0] != len(cols):
         raise Violation("C07.update", "call %d trial %d: step has %d entries for %d tangent columns" %
                         (ci, k, Dv.shape[0], len(cols)), ci, "update:shape")
